@@ -23,6 +23,7 @@ import (
 	"sort"
 	"strings"
 	"sync"
+	"syscall"
 	"time"
 )
 
@@ -284,11 +285,16 @@ type Pool struct {
 }
 
 // NewPool creates the pool; the worker is started lazily.
-func NewPool() *Pool { return &Pool{Deadline: 4 * time.Second, TimeoutBudget: 3, confirmed: map[string]Result{}} }
+func NewPool() *Pool {
+	return &Pool{Deadline: 4 * time.Second, TimeoutBudget: 3, confirmed: map[string]Result{}}
+}
 
 func (p *Pool) spawn() (*worker, error) {
 	cmd := exec.Command(os.Args[0], "-test.run", "^$")
 	cmd.Env = append(os.Environ(), "VERIF_WORKER=1", "VERIF_STATS=", "VERIF_CASEFILE=", "VERIF_JOURNAL=")
+	// the kernel kills the worker when this process goes away, also when the worker is wedged so badly that its own
+	// watchdog goroutine no longer runs (seen once: a worker spinning for hours with its parent long gone)
+	cmd.SysProcAttr = &syscall.SysProcAttr{Pdeathsig: syscall.SIGKILL}
 	in, err := cmd.StdinPipe()
 	if err != nil {
 		return nil, err
